@@ -98,6 +98,8 @@ Conc(s) ==
     \* \LTalter{first}{second}: only the second argument is typeset; files read by \LTinput (created by the harness)
     [] s = "alt" -> <<BS,"L","T","a","l","t","e","r","{">>
     [] s = "acb" -> <<"}","{">>
+    [] s = "gld" -> <<BS,"L","T","i","n","p","u","t","{","/","t","m","p","/","y","v","f","i","l","e","s","/","g",".","g","l","s","d","e","f","s","}">>   \* glossary database: entry ab with text abt
+    [] s = "gls" -> <<BS,"g","l","s","{","a","b","}">>
     [] s = "ltE" -> <<BS,"L","T","i","n","p","u","t","{","/","t","m","p","/","y","v","f","i","l","e","s","/","e",".","t","e","x","}">>   \* an empty file
     [] s = "ltD" -> <<BS,"L","T","i","n","p","u","t","{","/","t","m","p","/","y","v","f","i","l","e","s","/","d",".","t","e","x","}">>   \* contains \newcommand{\ma}{mn}
     \* languages (C12)
@@ -214,7 +216,7 @@ EnvOf(s) == CASE s \in {"bi","ei"} -> "itemize" [] s \in {"be","ee"} -> "enumera
               [] s \in {"bu","eu"} -> "unk" [] s \in {"bl","el"} -> "lstlisting" [] s \in {"bm","em"} -> "minipage"
 
 AllSyms == Visible \cup ReplSyms \cup OpenSyms \cup BeginSyms \cup EndSyms \cup
-   {"sp","nl","tab","cm","lb","ix","uk","uk2","cb","skp","par","im","imp","ref","cite","skb","ske","q","fnq","it","vb","vrb","vrb2","ocb","ctc","rbk","up","uA","uBt","cmf","cmu","acb","ltE","ltD"} \cup DefSyms \cup MathSyms \cup FaultSyms \cup LangSyms
+   {"sp","nl","tab","cm","lb","ix","uk","uk2","cb","skp","par","im","imp","ref","cite","skb","ske","q","fnq","it","vb","vrb","vrb2","ocb","ctc","rbk","up","uA","uBt","cmf","cmu","acb","ltE","ltD","gld","gls"} \cup DefSyms \cup MathSyms \cup FaultSyms \cup LangSyms
 
 (***************************************************************************)
 (* Reference state                                                         *)
@@ -298,7 +300,8 @@ AllowedCtx(st, s) ==
   /\ s = "acb" => st.ctx # <<>> /\ Top(st).k = "alt1"
   /\ s = "alt" => ~InKind(st, "sec") /\ ~InKind(st, "fn") /\ ~InKind(st, "arg") /\ ~InKind(st, "alt1") /\ ~InKind(st, "hid")
   /\ (st.ctx # <<>> /\ Top(st).k = "alt1") => s \in Visible \cup {"sp", "acb"}
-  /\ s \in {"ltE", "ltD"} => st.ctx = <<>>
+  /\ s \in {"ltE", "ltD", "gld"} => st.ctx = <<>>
+  /\ s = "gls" => "glossary-loaded" \in st.feat /\ ~InKind(st, "sec")
   /\ s = "ltD" => st.defs["ma"] = "none"
   /\ s = "ocb" => st.ctx # <<>> /\ Top(st).k = "mopt"
   /\ s = "ctc" => st.ctx # <<>> /\ Top(st).k = "copt"
@@ -451,6 +454,9 @@ Step(st, s) ==
             [s1 EXCEPT !.spans[fr.flow] = <<fr.start+1, p1>>, !.flows = Append(@, <<>>), !.spans = Append(@, <<p0+1, 0>>), !.drop = @ \cup {nf},
                        !.ctx[Len(st.ctx)] = Frame("hid", nf, fr.start)]
          ELSE [s1 EXCEPT !.ctx[Len(st.ctx)] = Frame("arg", fr.mark, fr.start)]
+    [] s = "gld" -> Emit(Feat(s1, "glossary-loaded"), <<Lay("v")>>)
+    \* \gls{ab}: the text of the entry is generated text of this use
+    [] s = "gls" -> NoteText(Emit(s1, <<Lay("x"), It("f", "a", p0+1, p1, 0), It("f", "b", p0+1, p1, 0), It("f", "t", p0+1, p1, 0), Lay("x")>>), "t")
     [] s = "ltE" -> Emit(s1, <<Lay("v")>>)
     [] s = "ltD" -> [Emit(s1, <<Lay("v")>>) EXCEPT !.defs["ma"] = "dA"]
     [] s = "ocb" ->
